@@ -170,7 +170,7 @@ func runC08(c *core.Ctx) {
 			isHook := func(in ssa.Instruction) bool {
 				switch x := in.(type) {
 				case *ssa.UnOp:
-					if fa, ok := x.X.(*ssa.FieldAddr); ok && x.Op == token.MUL && strings.HasSuffix(core.FieldName(fa), ".finish") {
+					if fa, ok := x.X.(*ssa.FieldAddr); ok && x.Op == token.MUL && isFinishHookField(fa) {
 						return true
 					}
 				case ssa.CallInstruction:
